@@ -29,6 +29,8 @@ type Gen struct {
 	C *ref.Codec
 	R *Rng
 	O *Opts
+
+	inElem int // >0 while generating the elements of an object list: nested lists stay short there
 }
 
 func (g *Gen) feat(k string) {
@@ -38,11 +40,16 @@ func (g *Gen) feat(k string) {
 }
 
 func (g *Gen) lens() []int {
+	if g.inElem > 0 {
+		return nestedLens // lists inside the elements of a list stay short (65535 x 65535 is 4 G elements)
+	}
 	if len(g.O.Lens) > 0 {
 		return g.O.Lens
 	}
 	return DefaultLens
 }
+
+var nestedLens = []int{0, 1, 2, 3}
 
 // Value builds a message of type t.
 func (g *Gen) Value(t *schema.Type) any {
@@ -130,6 +137,9 @@ func (g *Gen) fill(t *schema.Type, v reflect.Value) {
 	}
 }
 
+// UnregKeyFor draws a key that is not registered in tb (canonical for the key field).
+func (g *Gen) UnregKeyFor(tb *schema.Table) any { return g.unregisteredKey(tb) }
+
 func (g *Gen) unregisteredKey(tb *schema.Table) any {
 	for {
 		var k any
@@ -164,7 +174,11 @@ func (g *Gen) field(t *schema.Type, f *schema.Field, fv reflect.Value) {
 	case "fixstr":
 		fv.SetString(g.FixText(f.N, byte(f.Pad), f.Left))
 	case "pstr":
-		fv.SetString(g.Text(g.R.PickInt(g.strLens())))
+		if g.inElem > 0 {
+			fv.SetString(g.Text(g.R.PickInt([]int{0, 1, 2, 5, 17})))
+		} else {
+			fv.SetString(g.Text(g.R.PickInt(g.strLens())))
+		}
 	case "list":
 		n := g.R.PickInt(g.lens())
 		g.feat(fmt.Sprintf("list-len:%s", lenClass(n)))
@@ -188,11 +202,13 @@ func (g *Gen) field(t *schema.Type, f *schema.Field, fv reflect.Value) {
 		g.feat(fmt.Sprintf("objlist-len:%s", lenClass(n)))
 		et := g.S.Lookup(t.Pkg, f.Type)
 		sl := reflect.MakeSlice(fv.Type(), n, n)
+		g.inElem++
 		for i := 0; i < n; i++ {
 			el := reflect.ValueOf(g.C.New[et.QName]())
 			g.fill(et, el.Elem())
 			sl.Index(i).Set(el)
 		}
+		g.inElem--
 		fv.Set(sl)
 	case "struct":
 		st := g.S.Lookup(t.Pkg, f.Type)
